@@ -11,7 +11,7 @@ from prosemirror.transform import (
 )
 from prosemirror.transform.doc_attr_step import DocAttrStep
 
-ALPHABET = ["a", "b", "c", "d", "e", " ", "x", "y", "\n", "é", "😀", "𝒳", "0", "z"]
+ALPHABET = ["a", "b", "c", "d", "e", " ", "x", "y", "\n", "é", "😀", "𝒳", "0", "z", "\u00a0", "\u2003"]
 
 
 def gen_text(rng, lo=1, hi=6, plain=False):
